@@ -107,13 +107,6 @@ theorem cellVals_congr (red : List Bool) (sh : List Nat) (f g : Idx → Option V
   have : f = g := funext h
   rw [this]
 
-/-- Well-formedness of a sub-grid inside a shape: positive steps, last element inside. -/
-def subOk : List Nat → Sub → Bool
-  | [], [] => true
-  | h :: hs, (b, n, st) :: ss =>
-    decide (0 < st) && (n == 0 || decide (b + (n - 1) * st < h)) && subOk hs ss
-  | _, _ => false
-
 /-- The coordinates on the *reduced* axes lie on their progressions. -/
 def inSubRed : List Bool → Sub → Idx → Bool
   | true :: rs, (b, n, st) :: ss, i :: is => onProg b n st i && inSubRed rs ss is
